@@ -307,6 +307,12 @@ func (b *bounds) limit(n, eng int) uint64 {
 	return uint64(b.A[eng]*float64(n) + b.B[eng])
 }
 
+// engineRejected: the error comes from an engine's lowering, not from the decoder or
+// the validator, so the engine did work on the module before rejecting it.
+func engineRejected(errText string) bool {
+	return strings.HasPrefix(errText, "handling instruction") || strings.Contains(errText, "failed to lower") || strings.Contains(errText, "failed to compile")
+}
+
 // rejectedLimit bounds the compile of an input that is rejected: it never reached an
 // engine, so it may not cost more than an accepted input of that size is allowed to
 // cost on the cheaper engine.
@@ -921,7 +927,7 @@ func child(mode string, in json.RawMessage) any {
 			out.Findings = append(out.Findings, finding{Sig: sig, Detail: core.Trunc(pv, 3000), Combo: comboName(combo)})
 			s.dropRuntime(combo)
 			out.Acc[combo] = 0
-		case s.bnd.Set && (alloc > lim || (cm == nil && alloc > s.bnd.rejectedLimit(len(bin)))):
+		case s.bnd.Set && (alloc > lim || (cm == nil && !engineRejected(errText) && alloc > s.bnd.rejectedLimit(len(bin)))):
 			which := "bound of " + engNames[combo%2]
 			if alloc <= lim {
 				lim = s.bnd.rejectedLimit(len(bin))
